@@ -24,6 +24,7 @@
   copy is not read again before the function returns.
 -/
 import Proofs.C15SrcLemmas
+import Proofs.C15SrcDetect
 import Props.C15
 set_option linter.unusedSectionVars false
 set_option linter.unusedVariables false
@@ -2495,5 +2496,63 @@ theorem modelV_eq_createModel (w : World) (comp : Component → V)
           · simp only [ha, Bool.false_eq_true, if_false]
             rfl
 
+/-! ## `detect_and_return_klass` and `build_new_mixed_class` themselves
+
+  `determine_klass` (above) reaches these two functions through the oracle, which answers with the model's `detectKlass` /
+  `Resolved.mixed`.  Here the two functions are translated themselves and run against the lower-level oracle `detectExt`
+  (Proofs/C15SrcDetect.lean) that only knows what THEY delegate to — importlib's file loading, `inspect.getmembers` (the
+  classes of the module sorted by name, with whatever section base classes the file has imported in between),
+  `issubclass`, `type(name, bases, namespace)`, `hasattr(·, '__len__')`.  The theorems: the regenerated function returns
+  exactly what the main oracle answers for it, for every world and every placement of imported base classes. -/
+
+/-- **`detect_and_return_klass(python_file, baseclass)`**: load the file, `classes = [m[1] for m in
+    inspect.getmembers(foo, inspect.isclass) if m[1] is not baseclass and issubclass(m[1], baseclass)]` — the candidates are
+    the classes that derive from the section's base, the base class itself (usually imported into the file) is excluded by
+    identity, other sections' bases do not derive from it —, `Exception` when there is none, else `classes[0]`: the first
+    candidate in `getmembers`' name order.  That is the model's `detectKlass` (which selects, then sorts:
+    `filter_sortByName`); a file the world does not have makes `exec_module` raise. -/
+theorem src_detect_and_return_klass (w : World) (imp : String → Imports) (file n sec : String) :
+    Gen.SrcC15.detect_and_return_klass (detectExt w imp) (.str file) (.obj (.base n sec))
+      = w.ext.call (.fn "detect_and_return_klass") [.str file, .obj (.base n sec)] [] := by
+  have hR : w.ext.call (.fn "detect_and_return_klass") [.str file, .obj (.base n sec)] []
+      = (match w.customs.lookup file with
+         | none => .error .Exception
+         | some members => embE kobj (Factory.detectKlass members sec)) := rfl
+  rw [hR]
+  unfold Gen.SrcC15.detect_and_return_klass
+  simp only [dx_global_importlib, dx_global_inspect, bind_ok, Dyn.getAttr, dx_getattr_util, Dyn.callMethod, dx_spec,
+    dx_module_from_spec, dx_getattr_loader, dx_exec_module, dx_getattr_isclass, dx_getmembers]
+  cases hl : w.customs.lookup file with
+  | none => rfl
+  | some members =>
+    simp only [bind_ok, Dyn.iter, pure_ok]
+    unfold membersOf
+    rw [comprehension w (imp file) imp n sec _ (fun k acc => pass_klass w imp n sec k acc)
+      (fun b acc => pass_base w imp n sec b acc)]
+    simp only [bind_ok, List.nil_append]
+    rw [pick_first members sec w imp, C15L.filter_sortByName]
+    rfl
+
+/-- **`build_new_mixed_class(base_klass, mixins)`** for a list of mixins: `all_classes = tuple(mixins) + (base_klass,)` — the
+    bases of the new class in MRO order, mixins first, the base class LAST —, `new_name = '+'.join(x.__name__[:10] …)`,
+    `type(new_name, all_classes, {'__init__': mixed_init})`: the class `mixed ms b` of the model, `TypeError` for a repeated
+    mixin (`hb`: the base class is not one of the mixins — the registries keep mixins and classes apart). -/
+theorem src_build_new_mixed_class (w : World) (imp : String → Imports) (b : Klass) (ms : List Klass)
+    (hb : (ms.map (·.path)).contains b.path = false) :
+    Gen.SrcC15.build_new_mixed_class (detectExt w imp) (kobj b) (.list (ms.map kobj))
+      = w.ext.call (.fn "build_new_mixed_class") [kobj b, .list (ms.map kobj)] [] := by
+  rw [ext_call_build]
+  unfold Gen.SrcC15.build_new_mixed_class
+  simp only [dx_hasattr_list, bind_ok, Dyn.truthy, pure_ok, Bool.not_true, Bool.false_eq_true, if_false, Dyn.iter,
+    Dyn.add]
+  have hmap : (ms.map kobj ++ [kobj b]) = (ms ++ [b]).map kobj := by simp
+  rw [hmap, names_join]
+  simp only [bind_ok]
+  rw [join_strs]
+  simp only [bind_ok, dx_global_mixed_init, dx_type3]
+  unfold typeOf
+  rw [mapM_unKlass (ms ++ [b])]
+  simp only [List.getLast?_append, List.getLast?_singleton, Option.some_or, List.dropLast_concat, List.map_append,
+    List.map_cons, List.map_nil, hasDup_snoc, hb, Bool.or_false, bind_ok_right]
 
 end Taurex.C15Src
